@@ -10,6 +10,11 @@ package bttest
 // The storage engine is defaulted by NewServerWithOptions when the option is nil.
 //@ typeinv nonnil server.storage
 
+// Schema persistence protocol (C08 / C14): btMetaOps counts the calls of Storage.Create (kind 1) and
+// Storage.SetTableMeta (kind 2) made by the current thread; uf_btMetaKind(n) / uf_btMetaTbl(n) describe call number n
+// (see /verif/contracts/trusted/bttest_ifaces.spec).
+//@ ghostvar btMetaOps int protocol
+
 // ---------------------------------------------------------------------------------------------
 // Registry: DeleteTable / GetTable / ListTables / CreateTable
 // ---------------------------------------------------------------------------------------------
@@ -40,6 +45,9 @@ package bttest
 //@   ensures forall i :: 0 <= i < len(result0.Tables) ==> result0.Tables[i] != nil
 //@   ensures forall i :: 0 <= i < len(result0.Tables) ==> (result0.Tables[i].Name in s.tables) && hasPrefix(result0.Tables[i].Name, req.Parent + "/tables/")
 //@   ensures forall k string :: (k in s.tables) && hasPrefix(k, req.Parent + "/tables/") ==> exists i :: 0 <= i < len(result0.Tables) && result0.Tables[i].Name == k
+//@   ensures forall i, j :: 0 <= i < j < len(result0.Tables) ==> result0.Tables[i].Name != result0.Tables[j].Name
+//@   loop 1 invariant forall i :: 0 <= i < len(res.Tables) ==> visited1[res.Tables[i].Name]
+//@   loop 1 invariant forall i, j :: 0 <= i < j < len(res.Tables) ==> res.Tables[i].Name != res.Tables[j].Name
 //@   loop 1 invariant res != nil && fresh(res) && (cap(res.Tables) == 0 || fresh(res.Tables))
 //@   loop 1 invariant forall i :: 0 <= i < len(res.Tables) ==> res.Tables[i] != nil && fresh(res.Tables[i])
 //@   loop 1 invariant forall i :: 0 <= i < len(res.Tables) ==> (res.Tables[i].Name in s.tables) && hasPrefix(res.Tables[i].Name, req.Parent + "/tables/")
@@ -50,7 +58,12 @@ package bttest
 //@   property C14 C20
 //@   requires req != nil
 //@   modifies mapof(s.tables), req.Table, req.Table.Name, req.Table.ColumnFamilies
+//@   modifies ghost(btMetaOps)
 //@   ensures s.tables == old(s.tables)
+//@   ensures old((req.Parent + "/tables/" + req.TableId) in s.tables) ==> btMetaOps == old(btMetaOps)
+//@   ensures !old((req.Parent + "/tables/" + req.TableId) in s.tables) ==> btMetaOps == old(btMetaOps) + 1
+//@   ensures !old((req.Parent + "/tables/" + req.TableId) in s.tables) ==> uf_btMetaKind(btMetaOps) == 1 && uf_btMetaTbl(btMetaOps) == obj(req.Table)
+//@   callsite (Storage).Create requires arg1 == req.Table && req.Table.Name == req.Parent + "/tables/" + req.TableId
 //@   ensures old((req.Parent + "/tables/" + req.TableId) in s.tables) ==> result0 == nil && result1 != nil && uf_grpcCode(result1) == codes.AlreadyExists
 //@   ensures old((req.Parent + "/tables/" + req.TableId) in s.tables) ==> forall k string :: ((k in s.tables) <==> old(k in s.tables)) && s.tables[k] == old(s.tables[k])
 //@   ensures old((req.Parent + "/tables/" + req.TableId) in s.tables) ==> req.Table == old(req.Table)
@@ -98,6 +111,9 @@ package bttest
 //@   ensures !old(req.Name in s.tables) ==> result0 == nil && result1 != nil && uf_grpcCode(result1) == codes.NotFound
 //@   ensures old(req.Name in s.tables) && !dropAllReq(req) && !dropPrefixReq(req) ==> result0 == nil && result1 != nil
 //@   ensures old(req.Name in s.tables) && (dropAllReq(req) || dropPrefixReq(req)) ==> result1 == nil && result0 != nil
+//@   callsite (Rows).Clear requires dropAllReq(req) && arg0 == s.tables[req.Name].rows
+//@   callsite (Rows).AscendGreaterOrEqual requires !dropAllReq(req) && dropPrefixReq(req) && arg0 == s.tables[req.Name].rows && arg1 == as(req.Target, *btapb.DropRowRangeRequest_RowKeyPrefix).RowKeyPrefix
+//@   callsite (Rows).Delete requires !dropAllReq(req) && arg0 == s.tables[req.Name].rows && hasPrefix(arg1, as(req.Target, *btapb.DropRowRangeRequest_RowKeyPrefix).RowKeyPrefix)
 //@   callback $1 invariant forall i :: 0 <= i < len(rowsToDelete) ==> hasPrefix(rowsToDelete[i], prefixBytes)
 //@   callback $1 invariant cap(rowsToDelete) == 0 || fresh(rowsToDelete)
 //@   loop 1 invariant forall i :: 0 <= i < len(rowsToDelete) ==> hasPrefix(rowsToDelete[i], prefixBytes)
@@ -126,12 +142,19 @@ package bttest
 //@   property C14 C20
 //@   requires req != nil
 //@   modifies s.tables[req.Name].def.ColumnFamilies, heap("F:bigtablepb.Family.Columns"), heap("T:*bigtablepb.Column")
-//@   modifies ghost(btReadEpoch), ghost(btReadRow)
+//@   modifies ghost(btReadEpoch), ghost(btReadRow), ghost(btMetaOps)
 //@   ensures !old(req.Name in s.tables) ==> result0 == nil && result1 != nil && uf_grpcCode(result1) == codes.NotFound
 //@   ensures result1 != nil ==> result0 == nil
+//@   ensures result1 != nil ==> btMetaOps == old(btMetaOps)
+//@   ensures result1 == nil ==> btMetaOps == old(btMetaOps) + 1
+//@   ensures result1 == nil ==> uf_btMetaKind(btMetaOps) == 2 && uf_btMetaTbl(btMetaOps) == obj(s.tables[req.Name].def)
+//@   callsite (Storage).SetTableMeta requires arg1 == tbl.def && tbl.def.ColumnFamilies == cfs
 //@   ensures result1 != nil && old(req.Name in s.tables) ==> s.tables[req.Name].def.ColumnFamilies == old(s.tables[req.Name].def.ColumnFamilies)
 //@   ensures result1 == nil ==> old(req.Name in s.tables) && result0 != nil && fresh(result0)
 //@   ensures result1 == nil ==> s.tables[req.Name].def.ColumnFamilies != nil && fresh(s.tables[req.Name].def.ColumnFamilies)
+//@   ensures result1 == nil ==> result0.Name == s.tables[req.Name].def.Name
+//@   ensures result1 == nil ==> result0.ColumnFamilies != s.tables[req.Name].def.ColumnFamilies
+//@   ensures result1 == nil ==> forall k string :: (k in result0.ColumnFamilies) <==> (k in s.tables[req.Name].def.ColumnFamilies)
 //@   ensures result1 == nil ==> forall k string :: old(modUnnamed(req.Modifications, k, len(req.Modifications))) && (k in s.tables[req.Name].def.ColumnFamilies) ==> old(k in s.tables[req.Name].def.ColumnFamilies) && s.tables[req.Name].def.ColumnFamilies[k] == old(s.tables[req.Name].def.ColumnFamilies[k])
 //@   ensures result1 == nil ==> forall k string :: old(modUnnamed(req.Modifications, k, len(req.Modifications))) && old(k in s.tables[req.Name].def.ColumnFamilies) ==> (k in s.tables[req.Name].def.ColumnFamilies)
 //@   ensures result1 == nil ==> forall i :: old(0 <= i < len(req.Modifications) && modLast(req.Modifications, i, len(req.Modifications)) && modIsDrop(req.Modifications[i])) ==> !(old(req.Modifications[i].Id) in s.tables[req.Name].def.ColumnFamilies)
@@ -266,6 +289,12 @@ package bttest
 //@   ensures result1 != nil ==> result0 == nil
 //@   loop 1 invariant s != nil && fresh(s) && s.s != nil && fresh(s.s) && s.s.tables != nil && fresh(s.s.tables) && s.s.storage != nil
 //@   loop 1 invariant forall k string :: (k in s.s.tables) ==> s.s.tables[k] != nil
+//@   loop 1 invariant forall k string :: (k in s.s.tables) ==> s.s.tables[k].def != nil
+//@   loop 1 invariant forall k string :: (k in s.s.tables) ==> s.s.tables[k].def.Name == k
+//@   loop 1 invariant forall k string :: (k in s.s.tables) ==> fresh(s.s.tables[k]) && obj(s.s.tables[k]) <= alloc()
+//@   ensures result1 == nil ==> forall k string :: (k in result0.s.tables) ==> result0.s.tables[k] != nil && result0.s.tables[k].def.Name == k
+//@   callsite newTable requires arg0 == tbl && arg1 == rows
+//@   callsite (Storage).Open requires arg0 == opt.Storage && arg1 == tbl
 // (the slice returned by GetTables has no name in the source, so "every definition seen so far is registered"
 // cannot be written as an invariant over it)
 
